@@ -132,6 +132,10 @@ type KVSys[K comparable, V comparable] struct {
 	// Lite (rank mode, high B-tree orders): the alphabet is reduced to the positions
 	// {first, second, middle, last-but-one, last}; the per-state probes stay complete.
 	Lite bool
+	// Pos (deep mode for insertion-ordered maps, K = V = Val): keys are fresh values the fingerprint
+	// drops; the alphabet puts a fresh key, re-puts / removes the key at a few positions of the
+	// insertion order, removes an absent key, clears.
+	Pos bool
 }
 
 func (s *KVSys[K, V]) Name() string {
@@ -145,6 +149,9 @@ func (s *KVSys[K, V]) Name() string {
 	}
 	if s.Rank {
 		n += "/rank"
+	}
+	if s.Pos {
+		n += "/deep"
 	}
 	return n + s.Label
 }
@@ -724,6 +731,17 @@ func (b *kvBox[K, V]) Ops() []Op {
 	var ops []Op
 	n := len(b.ref)
 	s := b.sys
+	if s.Pos {
+		if n < s.N {
+			ops = append(ops, op("ins"))
+		}
+		if n > 0 {
+			for _, p := range litePositions(n - 1) {
+				ops = append(ops, op("upd", p), op("del", p))
+			}
+		}
+		return append(ops, op("delAbsent"), op("clear"))
+	}
 	if s.Rank && s.Lite {
 		pos := func(max int) []int { // distinct positions in 0..max
 			seen := map[int]bool{}
@@ -791,6 +809,26 @@ func (b *kvBox[K, V]) Ops() []Op {
 // resolve turns an op into (kind, key, value)
 func (b *kvBox[K, V]) resolve(o Op) (kind string, k K, v V) {
 	s := b.sys
+	if s.Pos {
+		switch o.N {
+		case "ins":
+			kind, k = "put", any(Val(1000000+b.nextR+1)).(K)
+		case "upd":
+			kind, k = "put", b.ref[o.A[0]].k
+		case "del":
+			kind, k = "remove", b.ref[o.A[0]].k
+		case "delAbsent":
+			kind, k = "removeAbsent", any(Val(-5)).(K)
+		case "clear":
+			kind = "clear"
+		default:
+			panic("kv op " + o.N)
+		}
+		if kind == "put" {
+			v = s.Fresh(b.nextV + 1)
+		}
+		return
+	}
 	if s.Rank {
 		cs := b.liveRanks()
 		var key Key
@@ -1046,6 +1084,15 @@ func (b *kvBox[K, V]) probes() (ks []K) {
 					r = -2
 				}
 				ks = append(ks, any(Key{C: Rank(cs[g]), R: r}).(K))
+			}
+		}
+		return
+	}
+	if s.Pos {
+		ks = append(ks, any(Val(-5)).(K))
+		if n := len(b.ref); n > 0 {
+			for _, p := range litePositions(n - 1) {
+				ks = append(ks, b.ref[p].k)
 			}
 		}
 		return
